@@ -234,6 +234,10 @@ mod phases {
                         Formatting::METHOD => {
                             respond!(request, features::format, doctx.clone())
                         }
+                        #[cfg(feature = "verif")]
+                        "$/verif/text" => {
+                            respond!(request, features::verif_text, doctx.clone())
+                        }
                         unknown_method => {
                             let method_name = unknown_method.to_string();
                             let (_, response) = request.split();
